@@ -195,11 +195,13 @@ def exec_check(res, a, desc, rng, case, jac=False):
         # every case twice: the abundances and their double (temperature slot unchanged); the cuSPARSE kernels get each pair as
         # one batch of two systems
         for y_ in (y, {n_: (v if n_ == "IDX_TGAS" else 2 * v) for n_, v in y.items()}):
-            cases.append(([k[l] for l in range(len(a.info.reactions))], kh, kc, [y_[f"IDX_{al}"] for al in a.aliases] + ([y_["IDX_TGAS"]] if thermal else [])))
+            cases.append(([k[l] for l in range(nre)], kh, kc, [y_[f"IDX_{al}"] for al in a.aliases] + ([y_["IDX_TGAS"]] if thermal else [])))
             exact.append((k, y_))
     # Odeint: the coefficients are literals of the rendered EvalRates (one of its own per reaction), the same in both cases
     ko = {l: Fraction(l % 13 + 3, 16) for l in range(nre)}
-    methods = ["dense", "sparse", "cusparse"] + ([] if (desc.get("rate_modifier") or desc.get("tmin") or desc.get("tmax")) else ["odeint"])
+    if not desc["reactions"]:
+        ko = {0: Fraction(0)}          # NREACTIONS is 1 for a network without reactions and nothing assigns k[0]: it stays 0.0
+    methods = ["dense", "sparse", "cusparse"] + ([] if (desc.get("rate_modifier") or desc.get("tmin") or desc.get("tmax") or desc.get("edits")) else ["odeint"])
     preps = [ol.prep_odeint(desc, [ko[l] for l in range(len(a.info.reactions))]) if m == "odeint" else
              ol.prep_cusparse(desc) if m == "cusparse" else ol.prep_fexjac(desc, m) for m in methods]
     diags = ol.compile_all([c for c, _ in preps])
@@ -374,6 +376,8 @@ FIXED = [
      "heating": [["H", "H"], ["He+", "e-", "e-"], ["H", "e-"]], "ode_modifier": {"e-": {"factors": ["-1.0e-3"], "reactants": [["e-", "H"]]}}},
     {"reactions": [(["H", "O"], ["OH"])], "required": [],
      "ode_modifier": {"H": {"factors": ["-2.0 * k[0]"], "reactants": [["H", "O"]]}, "OH": {"factors": ["1.5", "zeta"], "reactants": [["OH"], ["H", "H", "O"]]}}},
+    # no reaction at all, a modifier that reads k[0]: NREACTIONS is 1 and nothing assigns k[0]
+    {"reactions": [], "required": ["N"], "ode_modifier": {"N": {"factors": ["-2.0 - k[0]", "-k[0]"], "reactants": [["N", "N", "N"], ["N", "N", "N"]]}}},
     # terms longer than the statement-wrapping width (three long names: a blank-free term of 77 and more characters)
     {"reactions": [(["CH3CH2CH2CH2OH", "CH3OCH2CH2OCH3", "CH3CH2OCH2CH2CH2OH"], ["C16H38O5"]), (["C16H38O5"], ["CH3CH2CH2CH2OH", "CH3OCH2CH2OCH3", "CH3CH2OCH2CH2CH2OH"]),
                    (["CH3CH2OCH2CH2CH2OH", "CH3CH2OCH2CH2CH2OH", "CH3CH2OCH2CH2CH2OH"], ["CH3CH2CH2CH2OH", "H"])], "required": [],
